@@ -33,6 +33,12 @@ pub enum TOp {
     /// OpFunction / OpFunctionEnd (result type an undeclared id): the tracker must not care where a function starts or ends
     Function,
     FunctionEnd,
+    /// OpConstant whose type is the MOST RECENTLY defined id, n literal words
+    ConstLast(usize),
+    /// OpSwitch on the most recently defined id, one case of `words` literal words
+    SwitchLast(usize),
+    /// OpUndef whose type is the most recently defined id
+    UndefLast,
 }
 
 pub fn alphabet() -> Vec<TOp> {
@@ -78,16 +84,19 @@ pub fn alphabet() -> Vec<TOp> {
 }
 
 /// the id the n-th allocation (n = 1, 2, ..) receives. Scheme 0 = ascending from 1; 1 = descending; 2 = around a
-/// 4096 threshold and out of order; 3 = across 2^22; 4 = just below 2^32; 5 = across 2^16
-pub const ID_SCHEMES: usize = 6;
+/// 4096 threshold and out of order; 3 = across 2^22; 4 = just below 2^32; 5 = across 2^16; 6 = one high id first, the
+/// rest climbing past it
+pub const ID_SCHEMES: usize = 7;
 fn scheme_id(scheme: usize, n: u32) -> u32 {
     match scheme {
         0 => n,
-        1 => 59 - n,
+        1 => 1_000_000 - n,
         2 => [3000, 3500, 4096, 5000, 4095, 4097, 6002, 2999, 8192, 1, 7000, 4094][(n as usize - 1) % 12] + 20_000 * ((n - 1) / 12),
         3 => 0x0040_0000 - 3 + n,
         4 => 0xFFFF_FFF0 + n,
-        _ => 0xFFFF - 3 + n,
+        5 => 0xFFFF - 3 + n,
+        // the first id high, the following ones climbing past it from below in steps of 900
+        _ => if n == 1 { 10_000 } else { 900 * (n - 1) },
     }
 }
 
@@ -150,6 +159,13 @@ fn build_s(h: &[TOp], scheme: usize) -> Built {
     for o in h {
         let mut w: Vec<u32> = vec![];
         let exp;
+        // the *Last operations refer to the most recently defined id
+        let o = &match *o {
+            TOp::ConstLast(n) if !defined.is_empty() => TOp::Const(defined.len() - 1, n),
+            TOp::SwitchLast(wpl) if !defined.is_empty() => TOp::Switch(defined.len() - 1, 1, wpl),
+            TOp::UndefLast if !defined.is_empty() => TOp::Undef(defined.len() - 1),
+            other => other,
+        };
         match *o {
             TOp::TInt(width, sign) => {
                 let id = scheme_id(scheme, next);
@@ -236,6 +252,10 @@ fn build_s(h: &[TOp], scheme: usize) -> Built {
                     map.insert(id, ty);
                 }
                 defined.push(id);
+            }
+            TOp::ConstLast(_) | TOp::SwitchLast(_) | TOp::UndefLast => {
+                enabled = false;
+                break;
             }
             TOp::Function => {
                 let id = scheme_id(scheme, next);
@@ -415,6 +435,52 @@ pub fn run(tier: Tier) -> Run {
         let e = xs::enumerate(&reduced, d_enum + 1, &f);
         run.add_all(e.viols.iter().map(|v| Viol { key: format!("{}:ids{}", v.key, scheme), what: format!("(id scheme {}) {}", scheme, v.what), replay: v.replay.clone() }));
         scheme_transitions += e.transitions;
+    }
+    // ---- long histories (U-scale): an early declaration, then N further tracked ids (distinct type declarations, or
+    //      values), then a declaration that is the (N+2)-th tracked id and a literal consumer of it; and a consumer of
+    //      the EARLY declaration after all of them. N = every value 0..=300 and around 2^16; id schemes 0, 1, 2, 6
+    {
+        let ns: Vec<usize> = (0..=300).chain([1023, 1024, 4095, 4096, 4097, 65_534, 65_535, 65_536, 65_537, 70_000]).collect();
+        let work: Vec<(usize, usize, usize)> = ns.iter().flat_map(|&n| (0..2).flat_map(move |filler| [0usize, 1, 2, 6].into_iter().map(move |sch| (n, filler, sch)))).filter(|(n, _, sch)| *n <= 300 || *sch == 0).collect();
+        let res: Vec<(u64, Vec<Viol>)> = work
+            .par_iter()
+            .map(|&(n, filler, scheme)| {
+                let mut viols = vec![];
+                let mut cnt = 0u64;
+                let mut prefix: Vec<TOp> = vec![TOp::TInt(24, 0)];
+                for i in 0..n {
+                    prefix.push(if filler == 0 { TOp::TInt(1000 + i as u32, (i % 2) as u32) } else { TOp::Undef(0) });
+                }
+                let tails: Vec<Vec<TOp>> = vec![
+                    vec![TOp::TInt(64, 0), TOp::ConstLast(2)],
+                    vec![TOp::TInt(64, 1), TOp::ConstLast(1)],
+                    vec![TOp::TInt(32, 0), TOp::ConstLast(1)],
+                    vec![TOp::TFloat(64), TOp::UndefLast, TOp::SwitchLast(2)],
+                    vec![TOp::TInt(128, 0), TOp::ConstLast(1)],
+                    vec![TOp::Const(0, 1)],
+                    vec![TOp::TInt(64, 0), TOp::Const(0, 1)],
+                ];
+                for t in tails {
+                    let mut h = prefix.clone();
+                    h.extend(t);
+                    cnt += 1;
+                    let st = run_hist_s(&h, scheme);
+                    for v in st.viols {
+                        if viols.len() < 2 {
+                            viols.push(Viol { key: format!("{}:long", v.key), what: format!("(after {} {}, id scheme {}) {}", n, if filler == 0 { "further type declarations" } else { "further typed values" }, scheme, v.what.chars().take(700).collect::<String>()), replay: json!({"kind": "c10-long", "n": n, "filler": filler, "scheme": scheme}) });
+                        }
+                    }
+                }
+                (cnt, viols)
+            })
+            .collect();
+        let mut long_n = 0;
+        for (k, v) in res {
+            long_n += k;
+            run.add_all(v);
+        }
+        run.outcome("long_histories", long_n);
+        scheme_transitions += long_n;
     }
     run.outcome("transitions_under_other_id_schemes", scheme_transitions);
 
